@@ -483,3 +483,222 @@ Proof.
     apply match_sound in E. destruct E as [s [Hok [Hl _]]]. exists s. split; assumption.
   - intros [s [Hok ->]]. apply match_complete. exact Hok.
 Qed.
+
+(* ------------------------------------------------------------------ near-misses *)
+Lemma render_open : forall s, exists r, render s = open_s ++ r.
+Proof. intros s. eexists. reflexivity. Qed.
+
+Lemma render_close : forall s, exists b, render s = b ++ close_s.
+Proof.
+  intros s. unfold render.
+  exists (open_s ++ w1 s ++ env_s ++ w2 s ++ nm s ++ w3 s ++ pipe_s (has_pipe s) ++ w4 s ++ df s ++ w5 s).
+  repeat rewrite <- app_assoc. reflexivity.
+Qed.
+
+(* leading text: the string does not begin with "${{" *)
+Lemma reject_no_open : forall l, (forall r, l <> open_s ++ r) -> match_env_l l = None.
+Proof.
+  intros l H. destruct (match_env_l l) as [[n d]|] eqn:E; [|reflexivity].
+  apply match_sound in E. destruct E as [s [_ [Hl _]]]. destruct (render_open s) as [r Hr].
+  exfalso. apply (H r). congruence.
+Qed.
+
+(* trailing text: the string does not end with "}}" *)
+Lemma reject_no_close : forall l, (forall b, l <> b ++ close_s) -> match_env_l l = None.
+Proof.
+  intros l H. destruct (match_env_l l) as [[n d]|] eqn:E; [|reflexivity].
+  apply match_sound in E. destruct E as [s [_ [Hl _]]]. destruct (render_close s) as [b Hb].
+  exfalso. apply (H b). congruence.
+Qed.
+
+Lemma ws_split_unique : forall a b r r',
+  Forall sp a -> Forall sp b -> starts_nonspace r -> starts_nonspace r' ->
+  a ++ r = b ++ r' -> r = r'.
+Proof.
+  induction a as [|c a IH]; intros b r r' Ha Hb Hr Hr' H.
+  - destruct b as [|c b]; [exact H|]. cbn in H. subst r. cbn in Hr.
+    inversion Hb as [|? ? Hc _]; subst. unfold sp in Hc. congruence.
+  - destruct b as [|c' b].
+    + cbn in H. subst r'. cbn in Hr'. inversion Ha as [|? ? Hc _]; subst. unfold sp in Hc. congruence.
+    + cbn in H. inversion H; subst. inversion Ha; inversion Hb; subst. eapply IH; eassumption.
+Qed.
+
+(* missing `env:` after the opening braces and blanks *)
+Lemma reject_no_env : forall w r,
+  Forall sp w -> starts_nonspace r -> (forall r', r <> env_s ++ r') ->
+  match_env_l (open_s ++ w ++ r) = None.
+Proof.
+  intros w r Hw Hr H. destruct (match_env_l (open_s ++ w ++ r)) as [[n d]|] eqn:E; [|reflexivity].
+  apply match_sound in E. destruct E as [s [[H1 _] [Hl _]]]. unfold render in Hl.
+  apply app_inv_head in Hl. exfalso.
+  apply (H (w2 s ++ nm s ++ w3 s ++ pipe_s (has_pipe s) ++ w4 s ++ df s ++ w5 s ++ close_s)).
+  eapply ws_split_unique; [exact Hw| exact H1| exact Hr| reflexivity| exact Hl].
+Qed.
+
+(* concrete forms: other first character, single opening brace, other last character *)
+Lemma reject_first_char : forall c l, c <> "$"%char -> match_env_l (c :: l) = None.
+Proof. intros c l H. apply reject_no_open. intros r E. cbn in E. inversion E. congruence. Qed.
+
+Lemma reject_single_open : forall c l, c <> "{"%char -> match_env_l ("$" :: "{" :: c :: l)%char = None.
+Proof. intros c l H. apply reject_no_open. intros r E. cbn in E. inversion E. congruence. Qed.
+
+Lemma reject_last_char : forall l c, c <> "}"%char -> match_env_l (l ++ [c]) = None.
+Proof.
+  intros l c H. apply reject_no_close. intros b E.
+  assert (E' : l ++ [c] = (b ++ ["}"%char]) ++ ["}"%char]) by (rewrite <- app_assoc; exact E).
+  apply app_inj_tail in E'. destruct E' as [_ E']. congruence.
+Qed.
+
+Lemma reject_single_close : forall l c, c <> "}"%char -> match_env_l (l ++ [c; "}"%char]) = None.
+Proof.
+  intros l c H. apply reject_no_close. intros b E.
+  assert (E' : (l ++ [c]) ++ ["}"%char] = (b ++ ["}"%char]) ++ ["}"%char]).
+  { repeat rewrite <- app_assoc. exact E. }
+  apply app_inj_tail in E'. destruct E' as [E' _]. apply app_inj_tail in E'. destruct E' as [_ E']. congruence.
+Qed.
+
+(* ------------------------------------------------------------------ strings.Trim(d, dquote) *)
+Definition isq (c : ascii) : Prop := c = quote_c.
+Definition starts_nonquote (m : bytes) : Prop :=
+  match m with [] => True | c :: _ => c <> quote_c end.
+
+Lemma ltrim_q_app : forall q m, Forall isq q -> starts_nonquote m -> ltrim_q (q ++ m) = m.
+Proof.
+  induction q as [|c q IH]; intros m Hq Hm.
+  - cbn. destruct m as [|c m]; [reflexivity|]. cbn in *.
+    destruct (Ascii.eqb c quote_c) eqn:E; [|reflexivity]. apply Ascii.eqb_eq in E. congruence.
+  - inversion Hq as [|? ? Hc Hq']; subst. unfold isq in Hc. subst c. cbn [app ltrim_q].
+    rewrite Ascii.eqb_refl. apply IH; assumption.
+Qed.
+
+Lemma ltrim_q_all : forall q, Forall isq q -> ltrim_q q = [].
+Proof. intros q H. rewrite <- (app_nil_r q). apply ltrim_q_app; [exact H| exact I]. Qed.
+
+Lemma trim_quotes_spec : forall q1 m q2,
+  Forall isq q1 -> Forall isq q2 -> starts_nonquote m -> starts_nonquote (rev m) ->
+  trim_quotes_l (q1 ++ m ++ q2) = m.
+Proof.
+  intros q1 m q2 H1 H2 Hm Hr. unfold trim_quotes_l.
+  destruct m as [|c m].
+  - cbn [app]. rewrite (ltrim_q_all (q1 ++ q2)); [reflexivity|]. apply Forall_app. split; assumption.
+  - rewrite (ltrim_q_app q1 ((c :: m) ++ q2) H1); [|exact Hm].
+    rewrite rev_app_distr. rewrite ltrim_q_app; [apply rev_involutive| apply Forall_rev'; exact H2| exact Hr].
+Qed.
+
+(* ------------------------------------------------------------------ resolution *)
+Lemma resolve_three_way : forall env s n d,
+  match_env s = Some (n, d) ->
+  resolve_str env s =
+  match assoc n env with
+  | Some v => Ok v
+  | None => match d with EmptyString => Err | _ => Ok (trim_quotes d) end
+  end.
+Proof. intros env s n d H. unfold resolve_str. rewrite H. reflexivity. Qed.
+
+Lemma resolve_untouched : forall env s, match_env s = None -> resolve_str env s = Ok s.
+Proof. intros env s H. unfold resolve_str. rewrite H. reflexivity. Qed.
+
+Lemma match_env_none : forall s, match_env s = None <-> match_env_l (list_ascii_of_string s) = None.
+Proof.
+  intros s. unfold match_env. destruct (match_env_l (list_ascii_of_string s)) as [[n d]|]; split; congruence.
+Qed.
+
+Lemma untouched_unless_shaped : forall env s,
+  ~ shaped (list_ascii_of_string s) -> resolve_str env s = Ok s.
+Proof.
+  intros env s H. apply resolve_untouched. apply match_env_none.
+  destruct (match_env_l (list_ascii_of_string s)) eqn:E; [|reflexivity].
+  exfalso. apply H. apply match_none_iff. congruence.
+Qed.
+
+Lemma accepted_iff_shaped : forall s, match_env s <> None <-> shaped (list_ascii_of_string s).
+Proof.
+  intros s. rewrite <- match_none_iff. split; intros H E; apply H; apply match_env_none; exact E.
+Qed.
+
+Lemma grammar_string : forall sh, doc_ok sh ->
+  match_env (string_of_list_ascii (render sh))
+  = Some (string_of_list_ascii (nm sh), string_of_list_ascii (df sh)).
+Proof.
+  intros sh H. unfold match_env. rewrite list_ascii_of_string_of_list_ascii.
+  rewrite (match_grammar sh H). reflexivity.
+Qed.
+
+Lemma captures_string : forall s n d,
+  match_env s = Some (n, d) ->
+  exists sh, shape_ok sh /\ list_ascii_of_string s = render sh /\
+             n = string_of_list_ascii (nm sh) /\ d = string_of_list_ascii (df sh) /\
+             starts_nonword (w3 sh ++ pipe_s (has_pipe sh) ++ w4 sh ++ df sh ++ w5 sh ++ close_s).
+Proof.
+  intros s n d H. unfold match_env in H.
+  destruct (match_env_l (list_ascii_of_string s)) as [[n' d']|] eqn:E; [|discriminate].
+  inversion H; subst. apply match_sound in E. destruct E as [sh [H1 [H2 [H3 [H4 H5]]]]].
+  exists sh. rewrite <- H3, <- H4. split; [exact H1|]. split; [exact H2|]. split; [reflexivity|].
+  split; [reflexivity| exact H5].
+Qed.
+
+(* ------------------------------------------------------------------ the template pass *)
+Lemma subst_Lst : forall env l, subst env (Lst l) = lift Lst (seq_list (map (subst env) l)).
+Proof. reflexivity. Qed.
+Lemma subst_Mp : forall env kv, subst env (Mp kv) = lift Mp (seq_kv (rmap (subst env) kv)).
+Proof. reflexivity. Qed.
+
+Lemma subst_err_iff : forall env t,
+  subst env t = Err <-> exists s, In s (strings_of t) /\ resolve_str env s = Err.
+Proof.
+  intros env t. induction t as [s|s| |l IH|kv IH] using tree_ind'.
+  - cbn [subst strings_of]. rewrite lift_err. split.
+    + intros H. exists s. split; [left; reflexivity| exact H].
+    + intros [s' [[->|[]] H]]. exact H.
+  - cbn. split; [discriminate| intros [s' [[] _]]].
+  - cbn. split; [discriminate| intros [s' [[] _]]].
+  - rewrite subst_Lst, lift_err, seq_list_err, in_map_iff. cbn [strings_of].
+    rewrite Forall_forall in IH. split.
+    + intros [c [Hc Hin]]. apply (IH c Hin) in Hc. destruct Hc as [s [Hs He]].
+      exists s. split; [|exact He]. apply in_flat_map. exists c. split; assumption.
+    + intros [s [Hs He]]. apply in_flat_map in Hs. destruct Hs as [c [Hin Hs]].
+      exists c. split; [|exact Hin]. apply (IH c Hin). exists s. split; assumption.
+  - rewrite subst_Mp, lift_err, seq_kv_err. cbn [strings_of]. rewrite Forall_forall in IH. split.
+    + intros [k Hin]. unfold rmap in Hin. apply in_map_iff in Hin.
+      destruct Hin as [[k' c] [Heq Hin]]. cbn in Heq. inversion Heq; subst.
+      destruct (proj1 (IH (k, c) Hin)) as [s [Hs He]]; [assumption|].
+      exists s. split; [|exact He]. apply in_flat_map. exists (k, c). split; assumption.
+    + intros [s [Hs He]]. apply in_flat_map in Hs. destruct Hs as [[k c] [Hin Hs]].
+      exists k. unfold rmap. apply in_map_iff. exists (k, c). split; [|exact Hin].
+      cbn. f_equal. apply (IH (k, c) Hin). exists s. split; assumption.
+Qed.
+
+(* loading = template pass over the RESOLVED document *)
+Lemma load_full_is_spec : forall dims env t p,
+  WF dims p t -> load_full dims env t = load_full_spec dims env t.
+Proof. intros dims env t p H. unfold load_full, load_full_spec. rewrite (load_resolves dims t p H). reflexivity. Qed.
+
+Lemma load_full_ok_iff : forall dims env t,
+  load_full_spec dims env t <> Err <->
+  exists kv, load_spec dims t = Ok kv /\
+             forall s, In s (strings_of (Mp kv)) -> resolve_str env s <> Err.
+Proof.
+  intros dims env t. unfold load_full_spec. destruct (load_spec dims t) as [kv|].
+  - split.
+    + intros H. exists kv. split; [reflexivity|]. intros s Hs He. apply H.
+      assert (E : subst env (Mp kv) = Err) by (apply subst_err_iff; exists s; split; assumption).
+      rewrite E. reflexivity.
+    + intros [kv' [Hkv H]]. inversion Hkv; subst kv'. rewrite subst_Mp.
+      destruct (seq_kv (rmap (subst env) kv)) as [r|] eqn:E; cbn; [discriminate|].
+      exfalso. assert (E' : subst env (Mp kv) = Err) by (rewrite subst_Mp, E; reflexivity).
+      apply subst_err_iff in E'. destruct E' as [s [Hs He]]. exact (H s Hs He).
+  - split; [congruence| intros [kv [H _]]; discriminate].
+Qed.
+
+Lemma agree_same_kind : forall dims t t', Agree dims t t' ->
+  match t, t' with Mp _, Mp _ => True | Mp _, _ => False | _, Mp _ => False | _, _ => True end.
+Proof. intros dims t t' H. destruct H; try exact I. destruct t; exact I. Qed.
+
+(* entries of switches that are not active — templates in them included — never matter *)
+Lemma agree_load_full : forall dims env t t',
+  Agree dims t t' -> load_full_spec dims env t = load_full_spec dims env t'.
+Proof.
+  intros dims env t t' H. unfold load_full_spec, load_spec.
+  pose proof (agree_resolve dims t t' H) as E. pose proof (agree_same_kind dims t t' H) as K.
+  destruct t, t'; try reflexivity; try contradiction. rewrite E. reflexivity.
+Qed.
